@@ -61,7 +61,9 @@ ASSUMPTIONS = [
     "does not report a domain twice; which of two identical hits survives filter_results is not observable in values.",
     "No HMMER binary exists: profile hits reach the pipeline through DynamicProfile callables and "
     "hmm_detection.get_ruleset is replaced by the generated ruleset; find_hmmer_hits itself is not executed, its "
-    "two filter functions are called directly on generated hits. nrps_pks_domains results are not replayed.",
+    "two filter functions are called directly on generated hits; in half of the worlds every other profile is an HMM "
+    "signature whose hits a stand-in for find_hmmer_hits supplies in input order (the same in every child), so that "
+    "genes carry HMMer hits and dynamic hits in one run. nrps_pks_domains results are not replayed.",
 ]
 REQUIRED = ["children_clean", "op:stage-compare", "seeds:distinct-hash-probes", "inputs:with-ties",
             "stage:refined_hits:normal", "stage:refined_hits:neighbour", "stage:filter_results",
